@@ -141,6 +141,13 @@ Theorem C05_input_untouched : forall (E D : bytes -> bytes -> bytes) key iv data
 Proof. intros. split; [apply do_encrypt_input_untouched|apply do_decrypt_input_untouched]. Qed.
 Print Assumptions C05_input_untouched.
 
+(* Scope of "the caller's buffers": in the model a buffer IS the slice passed (its len bytes); the theorem above
+   and the (status, out, in) results say that nothing but the output slice changes.  Memory of the caller that
+   lies around a slice (the rest of a larger array of which the argument is a window, reachable through spare
+   capacity, e.g. by append) is not represented in Gallina; for it the check relies on the correspondence runs
+   with windowed arguments: every argument handed over as frame[off:off+n] of a larger live array with non-zero
+   guard bytes and spare capacity, the whole arrays compared after each call (harness/root/cmd/c05, tag w). *)
+
 (* ---- 4. length 0 or not a multiple of 16: refused, nothing written ---- *)
 Theorem C05_rejects : forall (E D : bytes -> bytes -> bytes) key iv data out,
   length data = 0 \/ Nat.modulo (length data) 16 <> 0 ->
